@@ -823,7 +823,7 @@ func c18Framer(c *lab.Ctx) {
 		"(PUSH_PROMISE always carries END_HEADERS: x/net has no reading for a continued one). readings: expected == x/net (else generator fault), x/net == MOSN whole, " +
 		"MOSN whole == MOSN fed in fragments (random cuts, one frame per chunk, bytewise for short streams). distinct = (class, role, " +
 		"feature set of the case, fragmenting)")
-	n := c.Pick(25000, 200000)
+	n := c.Pick(25000, 120000)
 	replay := c.ReplayCase()
 	var genFault, framesRead, chunkedRuns, metaFrames int64
 	var mu sync.Mutex
